@@ -11,6 +11,8 @@ What is faked  : the ssl context (`Config.get_ssl_context` replaced on the *inst
 Nothing in /repo and nothing of the `ssl` module is patched.
 '''
 import datetime
+import io
+import json
 import ipaddress
 import ssl
 import struct
@@ -188,6 +190,32 @@ def contact_bytes(flags):
     return b'dtn!' + bytes([4, flags & 0xff])
 
 
+POLICY_OPTIONS = ('tls_enable', 'require_tls', 'require_host_authn', 'require_node_authn')
+
+
+def config_file_text(options, form='section'):
+    ''' text of a configuration file whose `tcpcl:` section holds `options` (only the keys given; None = null).
+    form: 'section' | 'with-others' (more options and sections around) | 'no-section' | 'empty' '''
+    if form == 'empty':
+        return ''
+    if form == 'no-section':
+        return json.dumps({'bp': {'node_id': 'dtn://local/'}})
+    doc = {'tcpcl': dict(options)}
+    if form == 'with-others':
+        doc['tcpcl'].update({'node_id': 'dtn://local/', 'keepalive_time': 0, 'stop_on_close': False})
+        doc['udpcl'] = {'dtls_enable_tx': False}
+    return json.dumps(doc)
+
+
+def config_from_file(options, form='section'):
+    from tcpcl.config import Config
+    cfg = Config()
+    cfg.node_id = 'dtn://local/'
+    cfg._bus_conn = None
+    cfg.from_file(io.StringIO(config_file_text(options, form)))
+    return cfg
+
+
 class Run(object):
     ''' One scenario on one real ContactHandler. '''
 
@@ -198,9 +226,15 @@ class Run(object):
         del dbus.service.LOG[:]
         self.sock = FakeSock('c15', peername=(sc['sock_peer'], 4556 if not sc['passive'] else 40000))
         self.ctx = FakeCtx(sc.get('handshake', 'ok'), make_cert(sc.get('cert')))
-        cfg = tu.make_config(tls_enable=bool(sc['tls_enable']), require_tls=sc['require_tls'],
-                             require_host_authn=bool(sc['require_host']), require_node_authn=bool(sc['require_node']),
-                             node_id='dtn://local/')
+        if 'config_file' in sc:
+            # the policy comes from a configuration file read by the REAL Config.from_file (yaml stub: JSON subset);
+            # sc['tls_enable'] … are then only what the file *says* (used by the monitors), never applied here
+            cfg = config_from_file(sc['config_file'], sc.get('config_file_form', 'section'))
+        else:
+            cfg = tu.make_config(tls_enable=bool(sc['tls_enable']), require_tls=sc['require_tls'],
+                                 require_host_authn=bool(sc['require_host']), require_node_authn=bool(sc['require_node']),
+                                 node_id='dtn://local/')
+        self.loaded = {k: getattr(cfg, k) for k in POLICY_OPTIONS}
         self.ctx_calls = 0
 
         def get_ctx():
@@ -267,7 +301,7 @@ class Run(object):
             'states': states, 'state': str(h.get_session_state()),
             'closed': bool(self.sock.closed), 'is_secure': bool(h.is_secure()),
             'tls_attempted': len(self.ctx.wrapped) > 0,
-            'escaped': list(self.escaped),
+            'escaped': list(self.escaped), 'loaded_cfg': dict(self.loaded),
             'params': {k: (str(v) if not isinstance(v, bool) else v) for k, v in params.items()
                        if k.startswith('authn_') or k.startswith('peer_') and k.endswith('id')},
         }
